@@ -395,6 +395,36 @@ static int run_query(ctx_t *c, char *line, uint64_t *out)
 		}
 		return ret;
 	}
+	case 'Y': {
+		/* low level walk of xattr set a; before every value another descriptor (b, if >= 0) is looked up in between.
+		 * The answer is defined by a alone, in the same format as X. */
+		sqfs_xattr_id_t desc, other;
+		long long j = -1;
+		size_t i;
+		sscanf(line + 1, "%llu %lld", &a, &j);
+		if (!c->xr) return SQFS_ERROR_NO_ENTRY;
+		ret = sqfs_xattr_reader_get_desc(c->xr, a, &desc);
+		if (ret) return ret;
+		ret = sqfs_xattr_reader_seek_kv(c->xr, &desc);
+		if (ret) return ret;
+		for (i = 0; i < desc.count && i < 1000; ++i) {
+			sqfs_xattr_entry_t *key = NULL;
+			sqfs_xattr_value_t *val = NULL;
+			ret = sqfs_xattr_reader_read_key(c->xr, &key);
+			if (ret) return ret;
+			if (j >= 0)
+				(void)sqfs_xattr_reader_get_desc(c->xr, (sqfs_u32)j, &other);
+			ret = sqfs_xattr_reader_read_value(c->xr, key, &val);
+			if (ret) { sqfs_free(key); return ret; }
+			h = H(h, key->key, strlen((const char *)key->key) + 1);
+			h = H(h, val->value, val->size);
+			h = HV(h, val->size);
+			sqfs_free(key);
+			sqfs_free(val);
+		}
+		*out = h;
+		return 0;
+	}
 	case 'D': {
 		sqfs_u32 id;
 		sscanf(line + 1, "%llu", &a);
